@@ -23,7 +23,7 @@ ASSUMPTIONS = [
 ]
 
 PROG = P.programs(nonexc=True, multi=True, patch=True, fixture=True, expect=True, force=True, cleanup_depth=3, p_raise=4, extras=True,
-                  rets=True, bursts=True, per_run=True)
+                  rets=True, bursts=True, per_run=True, fixture_kbi=True)
 CASE = st.fixed_dictionaries({"prog": PROG, "runs": st.sampled_from([2, 2, 3]), "flavour": st.sampled_from(["ext", "real", "py27"])})
 
 
